@@ -44,7 +44,7 @@ def run_case(case):
     if harness:
         raise HarnessError('thread exception in buffer harness: %r' % harness)
     viol, skipped = B.judge_debounce(case, hist)
-    viol += died
+    viol += died + B.judge_other(case, hist)
     if hist['stop'] != 'finished':
         viol += [v for v in B.judge_delivery(case, hist) if v['kind'] == 'hang']
     T = case['T']
@@ -66,4 +66,6 @@ def run_case(case):
         cl.append('foreign-arrivals')
     if case.get('flush'):
         cl.append('forced-flush-family')
+    if case.get('other'):
+        cl.append('second-buffer')
     return Result(viol, nt, cl, H.abbreviate(hist), {'steps': hist['steps'], 'skipped_bursts': skipped})
